@@ -16,6 +16,7 @@ CHECKS = {
             ("R-TABIDX.digit", "r_tables", "run_digit_index", ("quick", "thorough"))],
     "C16": [("R-TABLES.c16", "r_tables", "run_c16", ("quick", "thorough"))],
     "C10": [("R-TABLES.logic", "r_tables", "run_logic", ("quick", "thorough"))],
+    "C20": [("R-CXXALIAS", "r_cxx", "run", ("quick", "thorough"))],
     "C01": [("R-CONTRACT", "r_contract", "run", ("quick", "thorough")),
             ("R-CONSTASSERT", "r_assert", "run_constassert", ("quick", "thorough"))],
     "C02": [("R-DIVZERO", "r_divzero", "run", ("quick", "thorough")),
@@ -45,6 +46,7 @@ RULES = {
     "R-ABI": ("r_abi", "run"),
     "R-ALLOC.size": ("r_alloc", "run"),
     "R-CONTRACT": ("r_contract", "run"),
+    "R-CXXALIAS": ("r_cxx", "run"),
     "R-ALIAS": ("r_alias", "run"),
     "R-ALIAS.mem": ("r_alias", "run_mem"),
     "R-TABIDX.digit": ("r_tables", "run_digit_index"),
@@ -82,6 +84,12 @@ EXPLANATION = {
     "C10": "Exhaustive (4 rows x 9 kernels) truth tables of the per-limb operator of the mpn logical functions, read off the "
            "typed AST of the kernels / MPN_LOGOPS_N_INLINE uses.  Narrow: the mpz-level two's-complement handling, scans and "
            "popcounts are value properties and are not decided.",
+    "C20": "Static analysis of the C++ expression templates, which the pinned build never compiles: a driver TU instantiates every "
+           "expression shape (all 26 partial specialisations of __gmp_expr with an eval(), for mpz/mpq/mpf and the mixed mpz-in-mpq forms), "
+           "and in each of the ~128 instantiated eval() bodies no operand that may be the destination (a leaf of its type, or any "
+           "sub-expression) is read after the destination was written unless the path established p != operand.  This is the "
+           "'also when the variable being assigned appears inside the expression' clause.  Operator-to-C-function mapping, operand "
+           "order, conversions and stream I/O are NOT decided.",
     "C01": "Clause-level static analysis of the multiplication (and every other) size dispatch: at each of ~2100 call sites whose callee "
            "declares a size domain in its entry assertions (n >= 17 for Toom-3, an >= 40 for Toom-8 squaring, bn >= 86 and 4an <= 13bn "
            "for Toom-8.5, an >= 20 for the unbalanced Toom-3 variants, ...), the conditions that dominate the call are compared with "
@@ -131,6 +139,10 @@ ASSUMPTIONS = {
                    "re-extracted from the -DWANT_ASSERT=1 export on every run", "caller knowledge = branch conditions whose edge dominates the call + the caller's own entry "
                    "assertions; internal ASSERTs are claims and are not used", "refutation needs a bound established by a dispatch condition of the caller and no not-understood "
                    "condition that could exclude the violating value; relational assertions are proved by a matching guard or left undecided"],
+    "R-CXXALIAS": ["Clang's template instantiation of the driver TU selftest/fixtures/cxx_driver.cc against /repo/mpirxx.h (-std=gnu++17); every "
+                   "partial specialisation of __gmp_expr with an eval() must be instantiated (else exit 2)",
+                   "reads that are arguments of the call that writes p happen before the callee runs; the C functions handle overlap themselves",
+                   "decides evaluation ORDER under aliasing only - not that each functor calls the right C function with operands in the right order"],
     "R-ALIAS": ["alias model of the manual: an output may be the same variable as any input of its type, two outputs are distinct, locals alias nothing; "
                 "static helpers inherit the aliasing their call sites in the unit can produce",
                 "public callees handle overlap between their own operands (the same rules applied to them)",
